@@ -19,6 +19,7 @@ type Verdict struct {
 	Count    int // number of path instances merged into this verdict
 	QSize    int
 	Abstract string
+	Retried  bool
 }
 
 type dischargeOpts struct {
@@ -50,6 +51,7 @@ func discharge(obls []*Obligation, opt dischargeOpts) []*Verdict {
 		} else {
 			hy := unitPropagate(o.Hyps)
 			hy = append(hy, congruence(hy, o.Goal)...)
+			hy = append(hy, arithLemmas(hy, o.Goal)...)
 			o.Hyps = hy
 			q = Query(instantiate(o.Hyps, o.Goal), o.Goal, false)
 		}
@@ -82,6 +84,17 @@ func discharge(obls []*Obligation, opt dischargeOpts) []*Verdict {
 	}
 	close(jobs)
 	wg.Wait()
+	// undecided queries are retried one at a time on an otherwise idle machine with a generous limit, so that
+	// load (this run's own parallelism or anything else on the box) cannot turn a provable obligation into an alarm
+	for _, v := range order {
+		if v.Status == "unknown" && v.Query != "trivial" && len(v.Query) <= 8<<20 {
+			v.Abstract = ""
+			o2 := opt
+			o2.timeoutS = opt.timeoutS * 6
+			solveOne(v, o2)
+			v.Retried = true
+		}
+	}
 	return order
 }
 
